@@ -9,5 +9,22 @@ CLAIMS = {
           'the whole-stream statement is decided by correspondence + oracle (partial).',
   'note': 'Identifier characters and white space as in the property quantifier.',
  },
+ 'C08': {
+  'category': 'proof',
+  'technique': 'Lean 4 proof that the line_ended look-ahead equals the spec rule for every text + generated trigger table vs spec + differential correspondence + spec-lexer oracle',
+  'text': 'Theorem lineEnded_iff_spec: for every character sequence the model of Scanner::line_ended answers true exactly when the rest of the line is a line end in the sense of the Go spec '
+          '(blanks, newline-free general comments skipped; newline, EOF, line comment, general comment reaching a newline end the line). trigger_table_partial: the trigger table regenerated from scanner.rs equals the spec list '
+          'except for `package` (trigger_package_cex; known finding K1, pinned by a unit test). The model is validated against the real scanner on the exhaustive grid token kind x line-ending context and on random lines; '
+          'newline vs explicit-semicolon renderings of every corpus program are parsed to equal trees.',
+  'note': 'The whole-scanner statement (flag set after trigger, saved/restored on backtracking) is covered by correspondence + oracle, not yet by a theorem.',
+ },
+ 'C17': {
+  'category': 'proof',
+  'technique': 'Lean 4 proof over a byte-level model of next_nstr (UTF-8 encoding, char_indices) + hook counter at the unsafe conversion read after every case of every check',
+  'text': 'Theorem C17_holds: for every source, position inside it and n, the byte slice handed to from_utf8_unchecked is the UTF-8 encoding of the next n chars, hence valid (core ByteArray.IsValidUTF8), '
+          'and the index/slice bounds are in range (nextNstr_bounds). The pre-repair arithmetic is refuted by C17_old_cex. Tie: the 8-line function is modelled line by line and hook H2 counts invalid slices in the real code '
+          'on all strings up to length 4/5 over a 14-symbol alphabet of 1-4 byte chars, operators, digits, quotes, and on every input of every other check.',
+  'note': 'next_nstr is the only unsafe block; the translator check of C19 scans /repo/src for any other.',
+ },
 }
 NOT_CLAIMED = {}
